@@ -9,3 +9,6 @@ REG.bounded_check("C03.literal_membership", ["C03"], "C03.bounded",
 REG.bounded_check("C04.type_pairs", ["C04"], "C04.bounded",
                   covers=["GenericValue.can_assign", "SequenceValue.can_assign", "TypedDictValue.can_assign", "SubclassValue.can_assign", "TypeObject.can_assign (via type_from_runtime values)"],
                   bound="43 x 43 static types against 33 objects (accepted => membership inclusion), reflexivity / Never / object on 43 types, union laws on 14^3 triples; documented leniencies and known findings D23/D24 skipped")
+REG.bounded_check("C14.union_and_substitution_laws", ["C14"], "C14.bounded",
+                  covers=["annotate_value", "substitute_typevars of every Value class", "MultiValuedValue.__eq__", "Value.is_assignable on united operands", "member order of unite_values (C10)"],
+                  bound="18 values: all pairs (idempotence, Never identity, members, commutativity, operand acceptance, first-occurrence order), triples over 12 (associativity); substitution: identity on 23 closed values x 3 maps, full replacement on 10 open values, commutation with uniting on 36 pairs")
